@@ -73,14 +73,14 @@ def asyncSend (c : Chan) (m : Msg) : Chan × SendRes :=
   else ({ c with waiting := c.waiting ++ [m] }, .waiting)
 
 /-- Waiting async senders take the free capacity, in order. Returns those that completed. -/
-def admit (c : Chan) : Nat → Chan × List Msg
+def letIn (c : Chan) : Nat → Chan × List Msg
   | 0 => (c, [])
   | fuel + 1 =>
     match c.waiting with
     | [] => (c, [])
     | m :: rest =>
       if c.asyncQ.length < c.cfg.asyncCap then
-        let (c', done) := admit { c with waiting := rest, asyncQ := c.asyncQ ++ [m], accA := c.accA ++ [m] } fuel
+        let (c', done) := letIn { c with waiting := rest, asyncQ := c.asyncQ ++ [m], accA := c.accA ++ [m] } fuel
         (c', m :: done)
       else (c, [])
 
